@@ -27,6 +27,9 @@ def run_one(args):
         if lib.run_driver("flowcheck", mpath, mout) == "OK":
             g = [l.split()[2] for l in lib.read_lines(mout) if l.startswith("MGUARD ")]
             res["guard"] = "PANIC" if "PANIC" in g else ("OK" if g else None)
+            # per vehicle type in the order in which solve() works through them: the first step of the code that can fail is
+            # at the first type whose guard fails (panic in the flow construction) or whose simplex run overflows
+            res["guard_list"] = g
     return res
 
 
@@ -35,13 +38,19 @@ def failures(pid, inst, r):
     huge = max(inst["parameters"]["costs"].get(k) or 0 for k in ("staff", "serviceTrip", "deadHeadTrip", "idle")) >= 10 ** 9
     dbg = r["outcomes"].get("debug", ("OK", ""))
     f3 = huge and dbg[0] == "PANIC" and "rs-graph" in dbg[1] and "overflow" in dbg[1]
+    # the model's guard verdict for the type being solved when the external solver is reached: the types before the first
+    # one whose guard fails pass their guard (false alarm of the thorough tier, sixth session: the aggregated verdict over ALL
+    # types was printed, so that an overflow inside the simplex run of type 0 of an instance whose type 1 fails the guard was
+    # not recognised as F3)
+    gl = r.get("guard_list") or []
+    reached = "OK" if (gl and gl[0] == "OK") else r.get("guard")
     for build, (st, note) in r["outcomes"].items():
         if st != "OK" and f3 and build == "release":
             # the same arithmetic wraps around silently in the release build; whatever follows (no answer, time limit) is
             # the same finding F3 on the same instance
             bad.append(("flow-solver-internal-overflow",
                         "%s build: cost rates >= 10^9, the i64 guard of the flow network passes (model: %s) but "
-                        "rs_graph's network simplex panics %s [release outcome: %s]" % (build, r.get("guard"), dbg[1], st)))
+                        "rs_graph's network simplex panics %s [release outcome: %s]" % (build, reached, dbg[1], st)))
             continue
         if st != "OK":
             if st == "PANIC" and r.get("guard") == "PANIC" and "min_cost_flow_solver.rs" in note:
@@ -54,7 +63,7 @@ def failures(pid, inst, r):
                 # known finding F3: the code's own i64 guard passes, the external network simplex overflows internally
                 bad.append(("flow-solver-internal-overflow",
                             "%s build: cost rates >= 10^9, the i64 guard of the flow network passes (model: %s) but "
-                            "rs_graph's network simplex panics %s" % (build, r.get("guard"), note)))
+                            "rs_graph's network simplex panics %s" % (build, reached, note)))
             else:
                 bad.append(("no-answer-%s-%s" % (build, st),
                             "%s build: solve_instance %s within %ds wall clock %s" % (build, st, LIMIT, note)))
